@@ -311,7 +311,7 @@ class FakeSocket:
         c = self.conn
         if c is None:
             return self.so_error != 0
-        return c.established and c.tx_window_open()
+        return c.established and self.sim.mono_us >= c.stall_until_us
 
     # -- UDP
     def bind(self, addr):
@@ -440,6 +440,7 @@ class TcpConn:
         self.client_closed_flag = False
         self.recv_log: List[bytes] = []
         self.anomalies: List[str] = []
+        self.stall_until_us = 0            # the peer's receive window is closed until then
         self.tag = sock.tag
 
     # ---- client side, called by FakeSocket
@@ -472,8 +473,17 @@ class TcpConn:
                 sim.mark("c%d" % self.cid, "write")
                 if self.tag is not None:
                     self.tag.on_write(self, u)
+        if sim.mono_us < self.stall_until_us:
+            sim.rec("tcp", self.cid, "send", "stalled")
+            raise BlockingIOError(errno.EAGAIN, "would block")
         sp = getattr(self.tag, "send_plan", None)
         plan = sp.pop(0) if sp else None
+        if isinstance(plan, dict):
+            # accept a prefix, then the peer stops reading for a while
+            self.stall_until_us = sim.mono_us + int(plan["stall"] * US)
+            sim.at(plan["stall"], lambda: None)       # so that virtual time can reach the end of the stall
+            sim.fire("send_stall")
+            plan = plan.get("accept")
         if plan == "block":
             sim.fire("wouldblock")
             sim.rec("tcp", self.cid, "send", "wouldblock")
